@@ -154,13 +154,17 @@ func (c *GroupCoordinator) JoinGroup(ctx context.Context, req *kmsg.JoinGroupReq
 	} else if member.sessionTimeout == 0 {
 		member.sessionTimeout = defaultSessionTimeout
 	}
-	member.topics = c.parseSubscriptionTopics(req.Protocols)
+	topics := c.parseSubscriptionTopics(req.Protocols)
+	subscriptionChanged := exists && !sameTopics(member.topics, topics)
+	member.topics = topics
 	member.lastHeartbeat = time.Now()
 
 	if len(state.members) == 1 && state.state == groupStateEmpty {
 		state.leaderID = memberID
 		state.startRebalance(timeout)
-	} else if state.state == groupStateStable && !exists {
+	} else if state.state == groupStateStable && (!exists || subscriptionChanged) {
+		// A new member, or a member whose subscription changed, invalidates the
+		// current assignment: every member has to rejoin and sync again.
 		state.startRebalance(timeout)
 	} else if state.state == groupStateEmpty {
 		state.startRebalance(timeout)
@@ -909,6 +913,23 @@ func (c *GroupCoordinator) assignPartitions(ctx context.Context, state *groupSta
 	}
 
 	return assignments
+}
+
+// sameTopics reports whether two subscriptions name the same topics, in any order.
+func sameTopics(a, b []string) bool {
+	if len(a) != len(b) {
+		return false
+	}
+	as := append([]string(nil), a...)
+	bs := append([]string(nil), b...)
+	sort.Strings(as)
+	sort.Strings(bs)
+	for i := range as {
+		if as[i] != bs[i] {
+			return false
+		}
+	}
+	return true
 }
 
 func memberSubscribes(member *memberState, topic string) bool {
